@@ -167,6 +167,13 @@ def one_case(ctx, index: int, rng: random.Random):
     w_arg = None
     if wts is not None:
         w_arg = np.asarray(wts) if rng.random() < 0.7 else list(wts)
+        if dtype is None and not general and len(data) <= 300:
+            if wkind == "int" and rng.random() < 0.5:
+                wts = [w * 12 for w in wts]  # single weights fit int8 / uint8, their squares and sums do not
+                w_arg = np.asarray(wts) if isinstance(w_arg, np.ndarray) else list(wts)
+            nw, ndt = gen.narrow_weights(rng, wts, p=0.3)
+            if nw is not None:
+                w_arg, wkind = nw, f"{wkind}:{ndt}"
         if len(data) == 0:
             w_arg = np.zeros(0, dtype=float)
         kwargs["weights"] = w_arg
